@@ -68,8 +68,9 @@ def _c16_replay_monitor(case, obs, flavor):
 PROPS = {
     "C01": {
         "flavors": ["sync", "async"],
-        "streams": [("core", "sync", 200), ("history", "sync", 150), ("done", "sync", 80), ("loops", "sync", 80), ("actions", "sync", 80),
-                    ("core", "async", 150), ("history", "async", 100), ("loops", "async", 60), ("faults", "async", 60)],
+        "streams": [("core", "sync", 200), ("history", "sync", 120), ("histdirected", "sync", 80), ("done", "sync", 80), ("loops", "sync", 80),
+                    ("actions", "sync", 80), ("core", "async", 150), ("history", "async", 80), ("histdirected", "async", 60),
+                    ("loops", "async", 60), ("faults", "async", 60)],
         "oracles": [oracles.c01_legal],
         "thorough_scale": 10,
     },
@@ -97,14 +98,14 @@ PROPS = {
         "flavors": ["sync", "async"],
         "streams": [("select", "sync", 150), ("select", "async", 80)],
         "oracles": [oracles.c02_selection],
-        "q_checks": [_lazy("c06_guard_eval"), _lazy("c06_guard_parse")],
+        "q_checks": [_lazy("c06_guard_eval"), _lazy("c06_guard_parse"), _lazy("c06_param_guards")],
         "thorough_scale": 8,
     },
     "C07": {
         "flavors": ["sync", "async"],
         "streams": [("faults", "sync", 150), ("faults", "async", 150)],
         "oracles": [oracles.c01_legal, _c07_builtin],
-        "q_checks": [_lazy2("c07_twin"), _lazy2("c07_builtin_cases")],
+        "q_checks": [_lazy2("c07_twin"), _lazy2("c07_builtin_cases"), _lazy2("c07_rearm")],
         "thorough_scale": 6,
     },
     "C10": {
@@ -115,7 +116,8 @@ PROPS = {
     },
     "C11": {
         "flavors": ["sync", "async"],
-        "streams": [("history", "sync", 300), ("core", "sync", 100), ("history", "async", 200)],
+        "streams": [("histdirected", "sync", 300), ("history", "sync", 200), ("core", "sync", 60), ("histdirected", "async", 150),
+                    ("history", "async", 100)],
         "oracles": [oracles.c11_history],
         "thorough_scale": 10,
     },
@@ -153,7 +155,12 @@ def _shadowed_done(prob, case, flavor):
     return prob.get("kind") == "done-event-missing" and bool(prob.get("shadowed_by"))
 
 
+def _left_final_same_event(prob, case, flavor):
+    return prob.get("kind") == "done-without-final" and prob.get("final_was_entered_in_step") is True
+
+
 CLASSIFIERS = {
+    "completed-then-left-final-in-same-event": _left_final_same_event,
     "root-declares-onDone": _root_has_ondone,
     "outer-done-shadowed-by-nearer-onDone": _shadowed_done,
 }
